@@ -43,15 +43,39 @@ def domain_configs(nodes, tier):
     return out
 
 
+@lru_cache(maxsize=None)
+def _hub_graphs(tier):
+    """Four-node target graphs with at least three bidirected edges and at most five edges: ancestors can be joined
+    only through a hub of bidirected edges, which is where the ctf-factor / IDENTIFY interplay recurses."""
+    from ..graphs import enum_O as eo
+
+    return [g for g in eo(4, max_edges=5) if len(g.bi) >= 3]
+
+
+def explore_hub(res: Res, g: G, tier, seed):
+    """Unconditional queries on a four-node hub graph: every transport-marked set of at most two nodes, no policy,
+    single all-'-' event items with at most one subscript."""
+    yg = to_y0(g)
+    gj = g.to_json()
+    items_all = [it for it in event_items(g.nodes, 1, reflexive=False) if not it[2] and not any(s for _, s in it[1])]
+    for s in subsets(g.nodes, 0, 2):
+        fam = Family(g, s, (), seed)
+        dom, _ = build_domain(g, s, (), 0)
+        dj = {"S": list(s), "Z": [], "order": [str(v) for v in dom.ordering]}
+        for it in items_all:
+            case = {"graph": gj, "domain": dj, "event": event_json((it,))}
+            check_unconditional(res, g, yg, fam, dom, (it,), case)
+
+
 def shards(tier):
     uni = _universe(tier)
-    out = []
+    out = [("hub", i, i + 8) for i in range(0, len(_hub_graphs(tier)), 8)]
     for i, g in enumerate(uni):
         cfgs = domain_configs(g.nodes, tier)
         step = 4 if len(g.nodes) >= 3 else len(cfgs)
         for j in range(0, len(cfgs), step):
             out.append((i, j, min(j + step, len(cfgs))))
-    out.sort(key=lambda t: -len(uni[t[0]].nodes))
+    out.sort(key=lambda t: 0 if t[0] == "hub" else -len(uni[t[0]].nodes))
     return out
 
 
@@ -62,13 +86,15 @@ def describe(tier):
         + ", disjoint from S), domain graph = target graph with edges into Z removed plus T_s -> s; orderings: the graph's own "
         "and the reversed-tie alternative; ctfTRu events of up to two items (up to 1 subscript each"
         + ("" if tier == "thorough" else ", non-reflexive")
-        + "); ctfTR: one outcome and one condition item; every base value assignment",
+        + "); ctfTR: one outcome and one condition item; every base value assignment; plus ctfTRu on the 551 four-node graphs "
+        "with >=3 bidirected and <=5 edges, transport-marked sets of <=2 nodes, single all-'-' items with <=1 subscript",
         "rule": "state = (target graph, domain, event/query); transition = one unconditional_cft / conditional_cft call whose "
         "expression is evaluated on the multi-domain functional witness family and compared with the target probability",
         "assumptions": [
             "source-domain model: every mechanism shared with the target except at nodes of S (own mechanism) and of Z (a fresh "
             "policy mechanism of the parents the domain graph gives, i.e. none)",
-            "reading of the result: un-starred N = the returned event's own value of N; -N / +N literal; Sum binds N and -N",
+            "reading of the result: un-starred N = the returned event's own value of N, or, if the event gives N no value but "
+            "fixes it in a subscript, the value of that subscript; -N / +N literal; Sum binds N and -N",
         ],
     }
 
@@ -153,6 +179,23 @@ def _raised_by_input_validation(exc) -> bool:
     return False
 
 
+def transport_env(items, a):
+    """Reading of a ctfTRu / ctfTR result: an un-starred N is the returned event's own value of N; if the event gives N no
+    value but fixes it in a subscript (Y_x with X not observed), N is the value of that subscript -- the Q-factors are
+    written with plain parents standing for the intervened values."""
+    from ..ctf import event_value_env, val
+
+    env, ambiguous = event_value_env(items, a)
+    subs = {}
+    for _, ss, _ in items:
+        for n, star in ss:
+            subs.setdefault(n, set()).add(star)
+    for n, stars in subs.items():
+        if (n, None) not in env and n not in ambiguous and len(stars) == 1:
+            env[(n, None)] = val(a, n, next(iter(stars)))
+    return env, ambiguous
+
+
 def check_unconditional(res: Res, g: G, yg, fam: Family, dom, items, case):
     from y0.algorithm.counterfactual_transport.api import (
         _validate_transport_unconditional_counterfactual_query_input,
@@ -207,7 +250,18 @@ def check_unconditional(res: Res, g: G, yg, fam: Family, dom, items, case):
         return
     truth_by_a = {tuple(sorted(a.items())): t for a, t in zip(base_assignments(g.nodes), truths)}
     outcome = judge_expression(
-        res, expr, ritems, g, fam, fam, case, clause_prefix="u_", finding="u_wrong_value", fkey=fkey, truth_fn=lambda a: truth_by_a[tuple(sorted(a.items()))]
+        res,
+        expr,
+        ritems,
+        g,
+        fam,
+        fam,
+        case,
+        clause_prefix="u_",
+        finding="u_wrong_value",
+        fkey=fkey,
+        truth_fn=lambda a: truth_by_a[tuple(sorted(a.items()))],
+        env_fn=transport_env,
     )
     res.outcomes["u_" + outcome] += 1
     if outcome == "correct" and len(res.samples) < 3 and POP in str(expr):
@@ -276,7 +330,9 @@ def check_conditional(res: Res, g: G, yg, fam: Family, dom, outs, conds, case):
             return None
         return tuple(j / c for j, c in zip(pj[k], pc[k]))
 
-    outcome = judge_expression(res, expr, ritems, g, fam, fam, case, clause_prefix="c_", finding="c_wrong_value", fkey=fkey, truth_fn=truth)
+    outcome = judge_expression(
+        res, expr, ritems, g, fam, fam, case, clause_prefix="c_", finding="c_wrong_value", fkey=fkey, truth_fn=truth, env_fn=transport_env
+    )
     res.outcomes["c_" + outcome] += 1
 
 
@@ -316,9 +372,13 @@ def explore(res: Res, g: G, cfgs, tier, seed, only=None):
 
 
 def work(shard, tier, seed):
+    res = Res()
+    if shard[0] == "hub":
+        for g in _hub_graphs(tier)[shard[1] : shard[2]]:
+            explore_hub(res, g, tier, seed)
+        return res
     gi, lo, hi = shard
     g = _universe(tier)[gi]
-    res = Res()
     explore(res, g, domain_configs(g.nodes, tier)[lo:hi], tier, seed)
     return res
 
@@ -328,5 +388,8 @@ def replay(case, clause=None):
 
     res = Res()
     g = G.from_json(case["graph"])
+    if len(g.nodes) == 4:
+        explore_hub(res, g, "quick", int(os.environ.get("VERIF_SEED", "0") or 0))
+        return [v for v in res.violations if v["input"].get("event") == case.get("event") and v["input"].get("domain") == case.get("domain")]
     explore(res, g, [(tuple(case["domain"]["S"]), tuple(case["domain"]["Z"]))], "thorough", int(os.environ.get("VERIF_SEED", "0") or 0), only=case)
     return list(res.violations)
